@@ -241,11 +241,11 @@ class DocutilsRenderer(RendererProtocol):
                 self._heading_slugs
             )
 
-        # ensure these settings are set for later footnote transforms
-        self.document.settings.myst_footnote_transition = (
-            self.md_config.footnote_transition
-        )
-        self.document.settings.myst_footnote_sort = self.md_config.footnote_sort
+        # ensure these are set for later footnote transforms
+        # (on the document, not on its settings: the docutils parser reads
+        # the global configuration from settings of exactly these names)
+        self.document.myst_footnote_transition = self.md_config.footnote_transition
+        self.document.myst_footnote_sort = self.md_config.footnote_sort
 
         # log warnings for duplicate reference definitions
         # "duplicate_refs": [{"href": "ijk", "label": "B", "map": [4, 5], "title": ""}],
